@@ -42,7 +42,7 @@ RULE = ('Hypothesis-generated calls of find_root and integrate.quad. Observable 
         'sub-property counts cases that pass a keyword argument or an infinite limit; distinct = distinct spec hash.')
 ASSUMPTIONS = ['RefObs.combine is the statement of C01 (vlib/refobs.py); operands enter through RefObs.from_pe',
                'analytic partial derivatives, inverses and antiderivatives are self-checked by finite differences at import',
-               'root value: |x - x*| <= 1e-7|x*| + 1e-10 (fsolve stops at a relative step of 1.49e-8); fluctuations of the '
+               'root value: |x - x*| <= 1e-7|x*| + 1e-10 (1e-3|x*| for the family with roots of size 1e-8) (fsolve stops at a relative step of 1.49e-8); fluctuations of the '
                'root 1e-10 with partials taken at the returned root; explicit inverse: 1e-9 + the change of the gradient under a '
                'shift of the root by the accepted inaccuracy',
                'integral: value and each gradient entry within 10 x the error estimate QUADPACK reports for that integrand '
@@ -101,6 +101,13 @@ ROOT = {
                  f=lambda x, v, k: np.tanh(x) - v[0], fx=lambda x, v, k: 1.0 / np.cosh(x) ** 2, fd=lambda x, v, k: [-1.0],
                  root=lambda v, k: math.atanh(v[0]),
                  inv=lambda m, d, k: m.arctanh(d[0])),
+    # roots of very small magnitude (1e-8): a solver that stops on an absolute step is off there; the operand is built in
+    # units of `scale` (domain below is d / scale) so that its central value keeps its relative precision
+    'cubetiny': dict(n=1, kind='pos', dom=[[(0.2e-24, 5.0e-24)]], scale=1e-24,
+                     pe=lambda anp, x, D, k: x ** 3 - D(0),
+                     f=lambda x, v, k: x ** 3 - v[0], fx=lambda x, v, k: 3 * x * x, fd=lambda x, v, k: [-1.0],
+                     root=lambda v, k: v[0] ** (1.0 / 3.0),
+                     inv=lambda m, d, k: d[0] ** (1.0 / 3.0)),
     'cubic': dict(n=1, kind='real', dom=[[(-5.0, 5.0)]],
                   pe=lambda anp, x, D, k: x ** 3 + x - D(0),
                   f=lambda x, v, k: x ** 3 + x - v[0], fx=lambda x, v, k: 3 * x * x + 1.0, fd=lambda x, v, k: [-1.0],
@@ -176,6 +183,8 @@ def _selfcheck_roots():
     rs = np.random.RandomState(7)
     h = 1e-6
     for name, fam in ROOT.items():
+        if fam.get('scale'):
+            continue      # (finite differences with h = 1e-6 make no sense there; the formulas are those of 'pow' with k = 3)
         for k in (POW_K if 'pow' in name else [None]):
             for _ in range(6):
                 v = []
@@ -272,7 +281,8 @@ def root_case(draw, tier):
     fam = ROOT[name]
     n = fam['n']
     k = draw(st.sampled_from(POW_K)) if 'pow' in name else None
-    targets = [draw(dom_value(dom)) for dom in fam['dom']]
+    sc = fam.get('scale')
+    targets = [draw(dom_value([(lo / sc, hi / sc) for lo, hi in dom] if sc else dom)) for dom in fam['dom']]
     excluded = []
     if targets[0] == -EPS and findings.is_open('F-C09-2'):
         targets[0] = 0.0      # known finding: central value of d[0] exactly -eps gives a NaN root
@@ -284,6 +294,14 @@ def root_case(draw, tier):
             alias = [s, d]
     idx = [i for i in range(n) if not (alias and i == alias[1])]
     ops = draw(operand_specs([targets[i] for i in idx], tier))
+    if sc:
+        targets = [t * sc for t in targets]
+        for o in ops:
+            for c in o['chains']:
+                c['data'] = dict(c['data'], scale=sc)
+            for cv in o['cov']:
+                cv['means'] = [m * sc for m in cv['means']]
+                cv['cov'] = [[v * sc * sc for v in row] for row in cv['cov']]
     if n == 1:
         dform = draw(st.sampled_from(['scalar', 'scalar', 'list', 'array', 'tuple']))
     else:
@@ -383,7 +401,8 @@ def root_oracle(spec):
     what = 'find_root[%s%s]' % (name, '' if k is None else ', k=%r' % k)
 
     # (a) central value
-    if not (abs(xr - xs) <= 1e-7 * abs(xs) + 1e-10):
+    floor = 1e-3 * abs(xs) if fam.get('scale') else 1e-10      # (absolute floor: roots at or near zero of the O(1) families)
+    if not (abs(xr - xs) <= 1e-7 * abs(xs) + floor):
         if name in ('pow', 'powscale') and float(k) == int(k) and int(k) % 2 == 0 and abs(xr + xs) <= 1e-7 * abs(xs):
             raise Skip('solver went to the other branch of an even power')
         raise Violation('%s: central value %r is not the root %r of f(x, d) = 0 (f there = %r; d = %r)'
@@ -405,10 +424,10 @@ def root_oracle(spec):
     else:
         inv = pe.derived_observable(lambda x, **kw: fam['inv'](anp, x, k), ds)
     require(isinstance(inv, pe.Obs), 'oracle problem: inverse is not an Obs')
-    require(abs(float(inv.value) - xr) <= 1e-7 * abs(xs) + 1e-10, what + ': central value differs from the explicit inverse',
+    require(abs(float(inv.value) - xr) <= 1e-7 * abs(xs) + floor, what + ': central value differs from the explicit inverse',
             xr, float(inv.value))
     # the library knows the root only to the solver's tolerance: allow what a shift of the root by that much does to the gradient
-    dx = 1e-7 * abs(xs) + 1e-10
+    dx = 1e-7 * abs(xs) + floor
     gp = [-float(t) / float(fam['fx'](xs + dx, vals, k)) for t in fam['fd'](xs + dx, vals, k)]
     gm = [-float(t) / float(fam['fx'](xs - dx, vals, k)) for t in fam['fd'](xs - dx, vals, k)]
     # ... and rounding in the differentiated closed form (terms of the size of the largest gradient entry cancel)
@@ -585,7 +604,21 @@ def maybe_int(draw, v, dom):
 @st.composite
 def quad_kwargs(draw, wide=False):
     kw = {}
-    what = draw(st.sampled_from(['none', 'none', 'none', 'eps', 'limit', 'full', 'points', 'mixed'] + (['weight', 'eps', 'limit', 'full'] if wide else [])))
+    what = draw(st.sampled_from(['none', 'none', 'none', 'eps', 'limit', 'full', 'points', 'mixed'] +
+                                (['weight', 'eps', 'limit', 'full', 'eps0', 'eps0', 'weight0'] if wide else [])))
+    if what == 'eps0':
+        # option values that are "falsy" but meaningful: a purely relative (or purely absolute) accuracy request
+        if draw(st.booleans()):
+            kw['epsabs'] = draw(st.sampled_from([0, 0.0]))
+            kw['epsrel'] = draw(st.sampled_from([1e-10, 1e-12, 1e-6]))
+        else:
+            kw['epsrel'] = draw(st.sampled_from([0, 0.0]))
+            kw['epsabs'] = draw(st.sampled_from([1e-10, 1e-13, 1e-6]))
+        if draw(st.booleans()):
+            kw['full_output'] = draw(st.sampled_from([1, True]))
+    if what == 'weight0':
+        kw['weight'] = draw(st.sampled_from(['cos', 'sin']))
+        kw['wvar'] = draw(st.sampled_from([0, 0.0]))
     if what in ('eps', 'mixed'):
         kw['epsabs'] = draw(st.sampled_from([1e-11, 1e-12, 1e-3] if wide else [1e-11, 1e-12]))
         kw['epsrel'] = draw(st.sampled_from([1e-11, 1e-12, 1e-3] if wide else [1e-11, 1e-12]))
